@@ -47,6 +47,7 @@ structure Sess where
   st : State := {}
   pending : Array VarB := #[]
   started : Bool := false
+  opts : Opts := {}
   results : Array (Option Nat) := #[]
   seenLb : Array ER := #[]
   seenUb : Array ER := #[]
@@ -54,7 +55,7 @@ structure Sess where
 def Sess.start (s : Sess) : Sess :=
   if s.started then s else
   { s with started := true,
-           st := { vars := s.pending, defs := s.pending.map (fun _ => none), fixed := [] },
+           st := { vars := s.pending, defs := s.pending.map (fun _ => none), fixed := [], opts := s.opts },
            seenLb := s.pending.map (·.lb), seenUb := s.pending.map (·.ub) }
 
 def Sess.var? (s : Sess) (t : String) : Option Nat :=
@@ -230,6 +231,15 @@ def step (s : Sess) (line : String) : Sess × String :=
     match parseNum l, parseNum u, t.toNat? with
     | some l, some u, some t => ({ s with pending := s.pending.push { lb := l, ub := u, int := t ≠ 0 } }, "ok")
     | _, _, _ => (s, "bad-op")
+  | ["opt", name, v] =>
+    if s.started then (s, "bad-op") else
+    let b := v ≠ "0"
+    let o := s.opts
+    match name with
+    | "eqresult" => ({ s with opts := { o with eqResult := b } }, "ok")
+    | "eqbinary" => ({ s with opts := { o with eqBinVar := b } }, "ok")
+    | "unnest" => ({ s with opts := { o with unnest := b } }, "ok")
+    | _ => (s, "bad-op")
   | "op" :: rest =>
     let s := s.start
     match parseCon s rest with
